@@ -969,3 +969,173 @@ def run_chain_programs(ctx, progs, crate="k2chains"):
     lines = dict(l.split("\t", 1) for l in out.splitlines() if "\t" in l)
     ctx.evals += len(progs)
     return [(p, lines.get(p.pid, "MISSING")) for p in progs], log
+
+
+# ------------------------------------------------------------------------------------------------
+# C16: custom joiner programs (logging joiner macro), C17: nested macros, C19: costs
+
+
+JOINER_PRELUDE = r'''
+macro_rules! jn { ($($e:expr),*) => {{ log(format!("jn:{}", [$(stringify!($e)),*].len())); ($($e),*) }} }
+'''
+
+
+def run_joiner_programs(ctx):
+    """`custom_joiner(jn!)`: exactly one application per step with >1 active branches, with exactly those branches;
+    the results equal those of the default configuration (reference semantics)."""
+    n = 60 if ctx.quick() else 600
+    progs = []
+    for i in range(n):
+        kind = ctx.rng.pick(["a0t0s0", "a0t1s0", "a0t0s1", "a0t1s1"])
+        p = gen_scaffold(ctx.rng, "j%d" % i, kind, max_depth=4, fail_rate=(1, 8), handler_rate=(1, 4), block_rate=(1, 5))
+        p.opts = ["custom_joiner(jn!)"]
+        progs.append(p)
+    for i, p in enumerate(progs):
+        p.base = 1000 * (i + 1)
+    # reference: the same program without the option
+    cases = []
+    for p in progs:
+        opts, p.opts = p.opts, []
+        cases.append((p.pid, p.kind, p.macro_input(), "k2joiner"))
+        p.opts = opts
+    reals = k1.run_real(cases)
+    lines = ["SPEC\t%s\t%s\t%s\t%s" % (p.pid, p.kind, r.structure, p.world()) for p, r in zip(progs, reals)]
+    outs = k1.run_driver(lines)
+    src = PRELUDE_SYNC + JOINER_PRELUDE + "".join(p.rust_fn() for p in progs) + MAIN_SYNC % ", ".join(
+        '("%s", %s as fn() -> String)' % (p.pid, p.pid) for p in progs)
+    ok, out, log = build_and_run("k2joiner", src)
+    if not ok:
+        ctx.broken.append(("custom-joiner programs do not compile against the current macros", log[-3000:]))
+        return
+    got = dict(l.split("\t", 1) for l in out.splitlines() if "\t" in l)
+    ctx.evals += len(progs)
+    for p, o in zip(progs, outs):
+        spec_line = o.split("\t", 1)[1] if "\t" in o else o
+        rl = got.get(p.pid, "MISSING\t")
+        f = rl.split("\t")
+        evs = [t for (t, tn, tid) in parse_rust_events(f[1] if len(f) > 1 else "", p.base)]
+        jn = [int(t[3:]) for t in evs if t.startswith("jn:")]
+        # steps the reference ran, and their active counts
+        ran = sorted(set(int(m) for m in re.findall(r"cs:\d+:(\d+)", spec_line)))
+        depths = [p.depth(b) for b in range(len(p.branches))]
+        expect = [sum(1 for d in depths if d > k) for k in ran]
+        expect = [a for a in expect if a > 1]
+        problems = []
+        s_res = lean_flat(spec_line, p)[0]
+        if normalize_panic(f[0], p.base) != s_res:
+            problems.append("result with custom joiner %r differs from the default configuration's %r" % (f[0], s_res))
+        if not s_res.startswith("panic") and jn != expect:
+            problems.append("joiner applications (argument counts) %r, expected one per multi-branch step: %r" % (jn, expect))
+        if problems:
+            ctx.out.violation({"macro": p.name, "macro_kind": p.kind, "program": "%s! { %s }" % (p.name, p.macro_input()),
+                               "observed": rl[:1200], "problems": problems}, found_input=True, signature=None)
+
+
+NESTING = [
+    # (macro name, macro input, plain Rust, type)
+    ("join", "Some(1i64) |> |v| join! { v -> |x: i64| try_join! { Some(x) |> |y| y + 1 }.unwrap_or(0) }",
+     "Some(1i64).map(|v| (|x: i64| Some(x).map(|y| y + 1).unwrap_or(0))(v))", "Option<i64>"),
+    ("try_join", "Some(2i64) |> { let k = join! { 3i64 -> |z: i64| z * 2 }; move |v| v + k }, Some(1i64)",
+     "Some(2i64).map({ let k = 6i64; move |v| v + k }).and_then(|a| Some(1i64).map(|b| (a, b)))", "Option<(i64, i64)>"),
+    ("try_join", "Some(1i64), Some(2i64), map => |a, b| join! { a + b -> |s: i64| join_spawn! { s, s * 2 } }",
+     "Some((3i64, 6i64))", "Option<(i64, i64)>"),
+    ("join_spawn", "join! { 1i64, join_spawn! { 2i64, try_join! { Some(3i64), Some(4i64) } } }, spawn! { 5i64 ~-> |v: i64| join! { v, v } }",
+     "((1i64, (2i64, Some((3i64, 4i64)))), (5i64, 5i64))", "((i64, (i64, Option<(i64, i64)>)), (i64, i64))"),
+    ("join", "join! { join! { join! { 1i64 -> |a: i64| a + 1 } -> |b: i64| b + 1 } -> |c: i64| c + 1 } ~-> |d: i64| try_join! { Ok::<i64, i64>(d), "
+     "Ok::<i64, i64>(join! { d ~-> |e: i64| e * 2 }) }", "Ok::<(i64, i64), i64>((4, 8))", "Result<(i64, i64), i64>"),
+    ("try_join_spawn", "Ok::<i64, i64>(1) => |v| try_join_spawn! { Ok::<i64, i64>(v + 1), Ok::<i64, i64>(v + 2) } |> |t: (i64, i64)| t.0 + t.1, "
+     "Ok::<i64, i64>(join! { 10i64 ~-> |v: i64| v + 1 })", "Ok::<(i64, i64), i64>((5, 11))", "Result<(i64, i64), i64>"),
+]
+
+
+def run_nesting_programs(ctx):
+    progs = [FixedChainProg("nest%d" % i, name, m, pl, ty) for i, (name, m, pl, ty) in enumerate(NESTING)]
+    res, log = run_chain_programs(ctx, progs, crate="k2nesting")
+    if res is None:
+        ctx.broken.append(("nested macro programs do not compile against the current macros", log[-3000:]))
+        return
+    for (p, verdict) in res:
+        if not verdict.startswith("same"):
+            ctx.out.violation({"macro": p.name, "program": "%s! { %s }" % (p.name, p.macro_input()), "observed": verdict[:1200],
+                               "what": "nesting macros changed the meaning of one of them"}, found_input=True, signature=None)
+
+
+COST_PROGRAM = r'''
+use std::alloc::{GlobalAlloc, Layout, System};
+use std::sync::atomic::{AtomicUsize, Ordering};
+struct Counting;
+static ALLOCS: AtomicUsize = AtomicUsize::new(0);
+unsafe impl GlobalAlloc for Counting {
+    unsafe fn alloc(&self, l: Layout) -> *mut u8 { ALLOCS.fetch_add(1, Ordering::SeqCst); System.alloc(l) }
+    unsafe fn dealloc(&self, p: *mut u8, l: Layout) { System.dealloc(p, l) }
+}
+#[global_allocator] static A: Counting = Counting;
+use join::*;
+use std::rc::Rc;
+struct NoClone(i64);
+static DROPS: AtomicUsize = AtomicUsize::new(0);
+struct Tok(i64);
+impl Drop for Tok { fn drop(&mut self) { DROPS.fetch_add(1, Ordering::SeqCst); } }
+fn inc(v: i64) -> i64 { v + 1 }
+fn dbl(v: i64) -> i64 { v * 2 }
+fn some_inc(v: i64) -> Option<i64> { Some(v + 1) }
+fn main() {
+    // allocation: sequential macros over non-allocating user code
+    let before = ALLOCS.load(Ordering::SeqCst);
+    let a = join! { 1i64 -> inc, 2i64 ~-> dbl ~-> inc, 3i64 ~-> inc };
+    let b = try_join! { Some(1i64) |> inc, Some(2i64) ~=> some_inc ~|> dbl, Some(3i64), map => |x, y, z| x + y + z };
+    let c = try_join! { Ok::<i64, i64>(1) |> inc, Err::<i64, i64>(7) ~|> dbl };
+    let d = join! { 5i64 ?? |_: &i64| () -> inc };
+    let after = ALLOCS.load(Ordering::SeqCst);
+    println!("alloc\t{}\t{:?} {:?} {:?} {:?}", after - before, a, b, c, d);
+    // move-only values, each dropped exactly once
+    {
+        let r = join! { NoClone(1) -> |x: NoClone| x, NoClone(2) ~-> |x: NoClone| NoClone(x.0 + 1) ~-> |x: NoClone| x };
+        println!("moveonly\t{} {}", (r.0).0, (r.1).0);
+        let t = try_join! { Some(Tok(1)), Some(Tok(2)) ~|> |t: Tok| t, Some(Tok(3)) ~|> |t: Tok| t ~|> |t: Tok| t };
+        drop(t);
+        let t2 = try_join! { Some(Tok(4)), None::<Tok> ~|> |t: Tok| t, Some(Tok(5)) };
+        drop(t2);
+    }
+    println!("drops\t{}", DROPS.load(Ordering::SeqCst));
+    // !Send values and borrows of the caller's stack through the non-spawning macros
+    let rc = join! { Rc::new(1i64) -> |r: Rc<i64>| *r + 1, Rc::new(2i64) };
+    println!("rc\t{} {}", rc.0, rc.1);
+    let data = vec![1i64, 2, 3];
+    let mut acc = 0i64;
+    let text = String::from("abc");
+    let br = join! { data.iter() |> |x| x + 1 =>[] Vec<i64>, &mut acc -> |a: &mut i64| { *a += 5; *a }, &text -> |t: &String| t.len() };
+    println!("borrow\t{:?} {} {} {}", br.0, br.1, br.2, acc);
+    let mut counter = 0i64;
+    let tb = try_join! { Some(&mut counter) |> |c: &mut i64| { *c += 1; *c }, Some(data.len()) ~|> |n| n + 1 };
+    println!("tryborrow\t{:?} {}", tb, counter);
+    let fb = futures::executor::block_on(join_async! { futures::future::ready(&data) |> |d: &Vec<i64>| d.len(), futures::future::ready(Rc::new(3i64)) |> |r| *r });
+    println!("asyncborrow\t{:?}", fb);
+}
+'''
+COST_EXPECTED = {
+    "alloc": "0\t(2, 5, 4) Some(11) Err(7) 6",
+    "moveonly": "1 3",
+    "drops": "5",
+    "rc": "2 2",
+    "borrow": "[2, 3, 4] 5 3 5",
+    "tryborrow": "Some((1, 4)) 1",
+    "asyncborrow": "(3, 3)",
+}
+
+
+def run_cost_programs(ctx):
+    d = "k2cost"
+    ok, out, log = build_and_run(d, COST_PROGRAM, with_async=True)
+    if not ok:
+        ctx.broken.append(("move-only / Rc / borrowing programs do not compile through the non-spawning macros "
+                           "(no Clone / Send / 'static requirement may be added)", log[-3000:]))
+        return
+    got = dict(l.split("\t", 1) for l in out.splitlines() if "\t" in l)
+    ctx.evals += len(COST_EXPECTED)
+    for k, v in COST_EXPECTED.items():
+        if got.get(k) != v:
+            ctx.out.violation({"program": "tools/k2.py COST_PROGRAM, line `%s`" % k, "observed": got.get(k), "expected": v,
+                               "what": {"alloc": "the sequential macros allocated on the heap", "drops": "a value was not dropped exactly once"}.get(
+                                   k, "wrong value through borrowed / move-only / !Send operands")}, found_input=True, signature="cost-" + k)
+    ctx.out.coverage["samples"].append({"cost_program_lines": got})
